@@ -28,13 +28,8 @@ def check(prog, run):
     # the class layer hands THIS call's band and the stored decomposition to the routine
     run.rule("R-handover", "FDD.mpe / mpe_from_plot pass result.S_val, result.S_vec, result.freq and the DF of this call to FDD_mpe", 4)
     nh = 0
-    for ci in prog.classes.values():
-        if not ci.mod.startswith("pyoma2.algorithms"):
-            continue
-        for mname in ("mpe", "mpe_from_plot"):
-            m = ci.methods.get(mname)
-            if m is None:
-                continue
+    for mname in ("mpe", "mpe_from_plot"):
+        for ci, m in prog.class_methods("pyoma2.algorithms", mname):
             want = {pSval: {"self.result.S_val"}, pSvec: {"self.result.S_vec"}, pfreq: {"self.result.freq"}, pDF: {"DF"}}
             if mname == "mpe":
                 want[psel] = {"sel_freq"}
@@ -43,6 +38,12 @@ def check(prog, run):
                 run.ob("R-handover", m.qual, f"{mname} -> FDD_mpe.{p_}", ok, detail, witness=detail[:90], file=rel(prog.mods[m.mod].path), node=c, config=p_)
     if not nh:
         run.ob("R-handover", "pyoma2.algorithms", "callers of FDD_mpe", None, "no mpe method calling FDD_mpe found")
+    # the first stage of EFDD / FSDD is this same peak search: the band it scans is the DF1 of the call, on the stored spectrum and grid
+    from .C07 import handover_rule as efdd_handover
+    efdd_handover(prog, run.under({"R-handover": "R-handover"}), only=("Sy", "freq", "DF1", "sel_freq"))
+    efdd = prog.func("functions.fdd.EFDD_mpe")
+    for c, p_, ok, detail in astq.handover(prog, efdd, fi.qual, {pDF: {"DF1"}, psel: {"sel_freq"}, pfreq: {"freq"}}):
+        run.ob("R-handover", efdd.qual, f"EFDD_mpe -> FDD_mpe.{p_}", ok, detail, witness=detail[:90], file=f, node=c, config=p_)
 
     def ob(rule, role, ok, detail, witness="", node=None):
         run.ob(rule, fi.qual, role, ok, detail, witness=witness or detail[:90], file=f, node=node)
